@@ -460,7 +460,7 @@ def _ab_gen(rng):
     return d
 
 
-ABP = Unit(['C03', 'C20'], ABS + 'prepare_each', _ab_params, pre=ab_pre, post=ab_post, yields=ab_yields, invariants={1: ab_inv},
+ABP = Unit(['C03', 'C20', 'C01'], ABS + 'prepare_each', _ab_params, pre=ab_pre, post=ab_post, yields=ab_yields, invariants={1: ab_inv},
            abstract={'Chemistry.get_gas_mix_profile': _get_mix, 'Opacity.opacity': _abs_opacity,
                      'new:OpacityCache': _new_cache, 'new:KTableCache': _new_cache, 'new:GlobalCache': _new_globalcache},
            cases=[{'G': k} for k in (0, 1, 2, 3)], bounds=[dict(n=2, W=1, nl=3), dict(n=2, W=1, nl=2)],
@@ -494,7 +494,7 @@ def _sc_call(c, o, p):
     return GenTrace(vals, states), p
 
 
-SCY = Unit('C03', _c19.SC + 'prepare_each', _c19._sc_params, pre=_c19.SCP.pre, yields=_sc_yields, variant='yield',
+SCY = Unit(['C03', 'C19'], _c19.SC + 'prepare_each', _c19._sc_params, pre=_c19.SCP.pre, yields=_sc_yields, variant='yield',
            native_obj=_c19._sc_obj, native_call=_sc_call, gen=_c19._sc_gen, bounds=[dict(n=2, W=1)],
            frame_attrs=[('self', '_contrib'), ('self', 'sigma_xsec')], short='SimpleCloudsContribution.prepare_each@yield',
            doc='yield invariant: the cloud component is the contribution\'s current sigma_xsec')
@@ -543,7 +543,7 @@ def _cia_setup(c, o, p):
     return _cia_model(c, p), None
 
 
-PREP_CIA = Unit('C03', 'taurex.contributions.contribution:Contribution.prepare', _cia_params, pre=cia_pre, variant='CIA',
+PREP_CIA = Unit(['C03', 'C01'], 'taurex.contributions.contribution:Contribution.prepare', _cia_params, pre=cia_pre, variant='CIA',
                 post=_prep_post(_cia_comp, lambda v0: len(v0.self._cia_pairs)), invariants={1: cia_inv},
                 abstract={'Chemistry.get_gas_mix_profile': _get_mix, 'CIA.cia': _abs_cia},
                 cases=[{'P': k} for k in (0, 1, 2, 3)], bounds=[dict(n=2, W=1)], native_obj=_cia_obj,
@@ -578,7 +578,7 @@ def _ray_comp(c, v0, k, l, w):
     return _rayx(c)(GASES.index(g), w) * _mix(v0, g)[l]
 
 
-PREP_RAY = Unit('C03', 'taurex.contributions.contribution:Contribution.prepare', _ray_params, pre=ray_pre, variant='Rayleigh',
+PREP_RAY = Unit(['C03', 'C01'], 'taurex.contributions.contribution:Contribution.prepare', _ray_params, pre=ray_pre, variant='Rayleigh',
                 post=_prep_post(_ray_comp, lambda v0: len(list(v0.model.chemistry.activeGases) + list(v0.model.chemistry.inactiveGases))),
                 abstract={'Chemistry.get_gas_mix_profile': _get_mix, 'call:rayleigh_sigma_from_name': _abs_ray_sigma},
                 cases=_RAY_CASES, bounds=[dict(n=2, W=1)], native_obj=_ray_obj,
@@ -606,7 +606,7 @@ def _ab_setup(c, o, p):
     return model, undo
 
 
-PREP_ABS = Unit('C03', ABS + 'prepare', _ab_params, pre=ab_pre,
+PREP_ABS = Unit(['C03', 'C01', 'C20'], ABS + 'prepare', _ab_params, pre=ab_pre,
                 post=_prep_post(_ab_comp, lambda v0: len(v0.model.chemistry.activeGases)), invariants={1: ab_inv},
                 abstract={'Chemistry.get_gas_mix_profile': _get_mix, 'Opacity.opacity': _abs_opacity,
                           'new:OpacityCache': _new_cache, 'new:KTableCache': _new_cache, 'new:GlobalCache': _new_globalcache},
@@ -691,7 +691,7 @@ class _AV:
         self.self, self.density, self.path_length, self.layer, self.tau = v.self, v.density, v.path_length, v.layer, v.tau
 
 
-ABSC = Unit('C03', ABS + 'contribute', _absc_params, pre=lambda c, v: _k.cc_pre(c, _AV(v)),
+ABSC = Unit(['C03', 'C01', 'C20'], ABS + 'contribute', _absc_params, pre=lambda c, v: _k.cc_pre(c, _AV(v)),
             post=lambda c, v0, v1, r: _k.cc_post(c, _AV(v0), _AV(v1), r), frame=['tau'], native=_absc_native,
             gen=lambda rng: (lambda d: dict(d))(_k._cc_gen(rng)),
             bounds=[dict(b, nlayers_=b['nlayers'], ngrid_=b['ngrid']) for b in _k._K1_BOUNDS],
